@@ -326,6 +326,12 @@ func CalculateRewards(
 		// Normalize share
 		normalizedShare := rawShare / totalShare
 		totalPoolRewards := uint64(float64(pots.Rewards) * normalizedShare)
+		// float64 rounding can push a share (or the running sum) above the
+		// pot; never hand out more than what is left in it, so that the
+		// adjustment below is a non-negative remainder and cannot wrap
+		if remaining := pots.Rewards - totalDistributed; totalPoolRewards > remaining {
+			totalPoolRewards = remaining
+		}
 		poolRewardAmounts[poolID] = totalPoolRewards
 		totalDistributed += totalPoolRewards
 	}
@@ -461,11 +467,17 @@ func distributePoolRewards(
 
 	if totalPoolStake > 0 {
 		ownerStakeRatio := float64(ownerStake) / float64(totalPoolStake)
-		operatorRewards += uint64(
+		operatorShare := uint64(
 			float64(
 				totalPoolRewards-poolCost,
 			) * (margin + (1.0-margin)*ownerStakeRatio),
 		)
+		// float64 rounding (or a margin above 1) must not give the operator
+		// more than the pool has left after its cost
+		if operatorShare > totalPoolRewards-poolCost {
+			operatorShare = totalPoolRewards - poolCost
+		}
+		operatorRewards += operatorShare
 	} else {
 		// If no stake, operator gets all rewards above cost
 		operatorRewards = totalPoolRewards
@@ -491,6 +503,10 @@ func distributePoolRewards(
 						stakeholderRewardsTotal,
 					),
 				)
+				// float64 rounding must not assign more than is left
+				if reward > stakeholderRewardsTotal-assigned {
+					reward = stakeholderRewardsTotal - assigned
+				}
 				delegatorRewards[stakeKey] = reward
 				assigned += reward
 			}
